@@ -1,4 +1,4 @@
-import RlibModel.Lemmas.Mint
+import RlibModel.Lemmas.MintIo
 /-!
 # C06 — `Modular<M>` is ℤ/M with canonical representatives and true inverses
 
@@ -133,15 +133,21 @@ theorem new_hom (M v w : Int) (d : Nat) (hM : 2 ≤ M) (hM2 : M < 2 ^ 31) :
     have h1 : -(v % M) = -v + M * (v / M) := by have := Int.emod_add_mul_ediv v M; linarith
     rw [h1, Int.add_mul_emod_self_left]
   · rw [(pow_spec M _ d hM hM2 rv).1, pow_emod]
-/-- IO: `Readable` reduces the `i64` token with `new`; `Writable`/`Display`/`Debug` print the
-    canonical representative, so writing a value and reading the token back is the identity.
-    (The token ↔ `i64` step itself belongs to `rlib_io`: C08 / C09.) -/
-theorem io_spec (M t : Int) (hM : 2 ≤ M) (hM2 : M < 2 ^ 31) :
-    readTok M t = .ok (t % M) ∧
-    (∀ a, R M a → render a = toString a.toNat ∧ readTok M (a.toNat : Int) = .ok a) := by
-  refine ⟨new_eq M t hM hM2, fun a ha => ⟨rfl, ?_⟩⟩
-  unfold readTok
-  rw [new_eq M _ hM hM2, Int.toNat_of_nonneg ha.1, Int.emod_eq_of_lt ha.1 ha.2]
+/-- IO, reading: `Readable` is `new(reader.read::<i64>())`: any `i64` token value `t` is reduced to its
+    canonical representative. -/
+theorem io_spec (M t : Int) (hM : 2 ≤ M) (hM2 : M < 2 ^ 31) : readTok M t = .ok (t % M) :=
+  new_eq M t hM hM2
+
+/-- IO, writing and the round trip, through the decimal models of `rlib_io`: for a canonical value
+    (i) the bytes `u32::write` produces (C09's digit loop `Decimal.renderU` on a `BASE_10_LEN(u32)` buffer)
+    are the text the model prints, the standard decimal text of the field; (ii) parsing that token as an
+    `i64` (C08/C09 `Decimal.parseS`) and reducing gives the value back — writing and reading go through
+    the same canonical representative. -/
+theorem io_roundtrip (M a : Int) (hM : 2 ≤ M) (hM2 : M < 2 ^ 31) (ha : R M a) :
+    Decimal.renderU (Decimal.base10len 32) a.toNat = .ok (toBytes (render a).toList) ∧
+    toBytes (render a).toList = Decimal.decimalU a.toNat ∧
+    readTok M (Decimal.parseS (toBytes (render a).toList)) = .ok a :=
+  ⟨writer_bytes M a hM2 ha, render_bytes a, io_roundtrip_eq M a hM hM2 ha⟩
 
 /-! ### Non-vacuity: the hypotheses are met at the boundary of the guard (`M = 2^31 − 1`) -/
 
@@ -164,6 +170,9 @@ example : ∃ z, div 15015 5 2 = .ok z ∧ mul 15015 z 2 = .ok 5 :=
 /-- composite modulus, non-invertible operand: still a Bézout statement (`gcd(6, 15015) = 3`) -/
 example : ∃ r, inv 15015 6 = .ok r ∧ R 15015 r ∧ (r * 6) % 15015 = 3 :=
   inv_spec 15015 6 (by decide) (by decide) ⟨by decide, by decide⟩
+example : readTok 2147483647 (Decimal.parseS (toBytes (render 2147483646).toList)) = .ok 2147483646 :=
+  (io_roundtrip 2147483647 2147483646 (by decide) (by decide) ⟨by decide, by decide⟩).2.2
+example : readTok 7 (-9223372036854775808) = .ok 6 := io_spec 7 _ (by decide) (by decide)
 example : eq 5 5 = true ↔ (5 : Int) % 7 = 5 % 7 := repr_canonical 7 5 5 ⟨by decide, by decide⟩ ⟨by decide, by decide⟩
 
 example : (new 2147483647 9223372036854775807 >>= fun x => new 2147483647 (-9223372036854775808) >>= fun y => mul 2147483647 x y)
